@@ -1,0 +1,130 @@
+//go:build verif
+
+// Contracts for object creation (struct.go NewStruct, list.go New*List, List.raw) and the
+// segment write primitives.
+package capnp
+
+//@ spec
+//@ // the object [off, off+n) is the last thing in its segment, word aligned, all zero: what alloc
+//@ // hands out
+//@ func freshAt(seg *Segment, off address, n M) bool {
+//@ 	return off&7 == 0 && M(off)+n <= M(len(seg.data)) && M(len(seg.data)) < M(off)+n+8 &&
+//@ 		forall(int(off), len(seg.data), func(j int) bool { return seg.data[j] == 0 })
+//@ }
+//@ func wordsOf(sz ObjectSize) M { return M(sz.DataSize)>>3 + M(sz.PointerCount) }
+//@ func words32(sz ObjectSize) int32 { return int32(sz.DataSize>>3) + int32(sz.PointerCount) }
+//@ end
+
+// ---------------------------------------------------------------- segment.go (write side)
+
+//@ func Segment.writeUint64
+//@   props C04 C05
+//@   requires s != nil && M(addr)+8 <= M(len(s.data)) && M(len(s.data)) <= mMaxSeg()
+//@   ensures LE64(s.data, int(addr)) == val
+//@   ensures bytesUnchangedExcept(s.data, int(addr), int(addr)+8)
+
+//@ func Segment.writeRawPointer
+//@   props C04 C05
+//@   requires s != nil && M(addr)+8 <= M(len(s.data)) && M(len(s.data)) <= mMaxSeg()
+//@   ensures LE64(s.data, int(addr)) == uint64(val)
+//@   ensures bytesUnchangedExcept(s.data, int(addr), int(addr)+8)
+
+//@ func ObjectSize.isValid -> r
+//@   props C05
+//@   ensures r == szOK(sz)
+
+//@ func ObjectSize.totalWordCount -> r
+//@   props C05
+//@   requires sz.DataSize%8 == 0 && szOK(sz)
+//@   ensures M(r)*8 == szBytes(sz) && M(r) == wordsOf(sz) && r == words32(sz)
+
+//@ func Size.timesUnchecked -> r
+//@   props C05
+//@   requires n >= 0 && M(sz)*M(n) < 1<<32
+//@   ensures M(r) == M(sz)*M(n)
+
+// ---------------------------------------------------------------- struct.go
+
+//@ func NewStruct -> st, err
+//@   props C04 C05 C16
+//@   requires wfSegW(s)
+//@   old m0 *Message = s.msg
+//@   ensures implies(err != nil, st.seg == nil && bytesUnchanged())
+//@   ensures implies(err == nil, wfStruct(st) && wfSegW(st.seg) && st.seg.msg == m0 && st.depthLimit == maxDepth)
+//@   -- the size asked for, data section rounded up to whole words
+//@   ensures size: implies(err == nil, st.size.PointerCount == sz.PointerCount && st.size.DataSize&7 == 0 &&
+//@     M(st.size.DataSize) >= M(sz.DataSize) && M(st.size.DataSize) < M(sz.DataSize)+8)
+//@   -- fresh, zeroed, aligned storage at the end of its segment; nothing else is written
+//@   ensures fresh: implies(err == nil, freshAt(st.seg, st.off, szBytes(st.size)))
+//@   ensures untouched: implies(err == nil, bytesUnchangedExcept(st.seg.data, int(st.off), len(st.seg.data)))
+
+// ---------------------------------------------------------------- list.go
+
+//@ func newPrimitiveList -> l, err
+//@   props C04 C05 C16
+//@   requires wfSegW(s) && sz <= 8
+//@   old m0 *Message = s.msg
+//@   ensures implies(err != nil, l.seg == nil && bytesUnchanged())
+//@   ensures implies(err == nil, wfList(l) && wfSegW(l.seg) && l.seg.msg == m0 && l.depthLimit == maxDepth)
+//@   ensures shape: implies(err == nil, l.length == n && l.flags == 0 && l.size.DataSize == sz && l.size.PointerCount == 0)
+//@   ensures fresh: implies(err == nil, freshAt(l.seg, l.off, listBytes(l)))
+//@   ensures untouched: implies(err == nil, bytesUnchangedExcept(l.seg.data, int(l.off), len(l.seg.data)))
+
+//@ func NewCompositeList -> l, err
+//@   props C04 C05 C16
+//@   requires wfSegW(s)
+//@   old m0 *Message = s.msg
+//@   ensures implies(err != nil, l.seg == nil && bytesUnchanged())
+//@   ensures implies(err == nil, wfList(l) && wfSegW(l.seg) && l.seg.msg == m0 && l.depthLimit == maxDepth)
+//@   ensures shape: implies(err == nil, l.length == n && l.flags == isCompositeList && l.size.PointerCount == sz.PointerCount &&
+//@     l.size.DataSize&7 == 0 && M(l.size.DataSize) >= M(sz.DataSize) && M(l.size.DataSize) < M(sz.DataSize)+8)
+//@   -- the tag word in front of the elements is a struct pointer whose offset field is the element
+//@   -- count and whose size fields are the element size (encoding.html, composite lists)
+//@   ensures tag: implies(err == nil, l.off >= 8 && sKind(rawPointer(LE64(l.seg.data, int(l.off)-8))) == 0 &&
+//@     sOff(rawPointer(LE64(l.seg.data, int(l.off)-8))) == n &&
+//@     8*M(sDataWords(rawPointer(LE64(l.seg.data, int(l.off)-8)))) == M(l.size.DataSize) &&
+//@     sPtrWords(rawPointer(LE64(l.seg.data, int(l.off)-8))) == l.size.PointerCount)
+//@   ensures fresh: implies(err == nil, freshAt(l.seg, l.off, listBytes(l)))
+//@   ensures untouched: implies(err == nil, bytesUnchangedExcept(l.seg.data, int(l.off)-8, len(l.seg.data)))
+
+//@   assert after "s.writeRawPointer(addr" stillzero: M(addr)+8 <= M(len(s.data)) && forall(int(addr)+8, len(s.data), func(j int) bool { return s.data[j] == 0 })
+
+//@ func NewBitList -> bl, err
+//@   props C04 C05 C16
+//@   requires wfSegW(s)
+//@   old m0 *Message = s.msg
+//@   ensures implies(err != nil, bl.List.seg == nil && bytesUnchanged())
+//@   ensures implies(err == nil, wfList(bl.List) && wfSegW(bl.List.seg) && bl.List.seg.msg == m0 && bl.List.depthLimit == maxDepth)
+//@   ensures shape: implies(err == nil, bl.List.length == n && bl.List.flags == isBitList && bl.List.size.DataSize == 0 && bl.List.size.PointerCount == 0)
+//@   ensures fresh: implies(err == nil, freshAt(bl.List.seg, bl.List.off, listBytes(bl.List)))
+//@   ensures untouched: implies(err == nil, bytesUnchangedExcept(bl.List.seg.data, int(bl.List.off), len(bl.List.seg.data)))
+
+//@ func NewPointerList -> pl, err
+//@   props C04 C05 C16
+//@   requires wfSegW(s)
+//@   old m0 *Message = s.msg
+//@   ensures implies(err != nil, pl.List.seg == nil && bytesUnchanged())
+//@   ensures implies(err == nil, wfList(pl.List) && wfSegW(pl.List.seg) && pl.List.seg.msg == m0 && pl.List.depthLimit == maxDepth)
+//@   ensures shape: implies(err == nil, pl.List.length == n && pl.List.flags == 0 && pl.List.size.DataSize == 0 && pl.List.size.PointerCount == 1)
+//@   ensures fresh: implies(err == nil, freshAt(pl.List.seg, pl.List.off, listBytes(pl.List)))
+//@   ensures untouched: implies(err == nil, bytesUnchangedExcept(pl.List.seg.data, int(pl.List.off), len(pl.List.seg.data)))
+
+// The list pointer a list handle is written as: element size code and count as the encoding
+// prescribes (composite: total words, not elements).
+//@ func List.raw -> r
+//@   props C04 C05
+//@   requires wfList(p)
+//@   requires implies(p.seg != nil && p.flags == 0, (p.size.PointerCount == 1 && p.size.DataSize == 0) || (p.size.PointerCount == 0 &&
+//@     (p.size.DataSize == 0 || p.size.DataSize == 1 || p.size.DataSize == 2 || p.size.DataSize == 4 || p.size.DataSize == 8)))
+//@   requires implies(p.seg != nil && p.flags == isCompositeList, p.size.DataSize&7 == 0 && 0 <= p.length*words32(p.size) && p.length*words32(p.size) < 1<<29)
+//@   -- (the caller owes the word count in the machine arithmetic the function uses; that the 32-bit
+//@   -- product is the mathematical one when it is below 2^29 is not discharged here)
+//@   requires p.length < 1<<29
+//@   ensures implies(p.seg == nil, r == 0)
+//@   ensures implies(p.seg != nil, sKind(r) == 1 && sOff(r) == 0)
+//@   ensures comp: implies(p.seg != nil && p.flags == isCompositeList, sElemCode(r) == 7 && sElemCount(r) == p.length*words32(p.size))
+//@   ensures bit: implies(p.seg != nil && p.flags == isBitList, sElemCode(r) == 1 && sElemCount(r) == p.length)
+//@   ensures ptrs: implies(p.seg != nil && p.flags == 0 && p.size.PointerCount == 1, sElemCode(r) == 6 && sElemCount(r) == p.length)
+//@   ensures prim: implies(p.seg != nil && p.flags == 0 && p.size.PointerCount == 0, sElemCount(r) == p.length &&
+//@     ((p.size.DataSize == 0 && sElemCode(r) == 0) || (p.size.DataSize == 1 && sElemCode(r) == 2) || (p.size.DataSize == 2 && sElemCode(r) == 3) ||
+//@       (p.size.DataSize == 4 && sElemCode(r) == 4) || (p.size.DataSize == 8 && sElemCode(r) == 5)))
